@@ -124,6 +124,16 @@ def run(case):
         CTX.tick("c04:must-refuse")
         if a.ok:
             return violated("two ragged arrays with different row lengths %s and %s were combined: %s" % (lens, blens, describe()), tags, got=short(a.value))
+        # the refusal leaves both operands as they were, and the first one still combines with a matching partner
+        CTX.tick("c04:after-refusal")
+        if not same_array(ra.ravel(), flat) or np.asarray(ra.lengths).tolist() != list(lens) or not lists_same(peek(other), other_before):
+            return violated("%s was refused, but an operand was changed" % describe(), tags + ["operand-mutated"])
+        twin = RA(flat.copy(), list(lens))
+        again = attempt(fn, ra, twin) if side == "R" else attempt(fn, twin, ra)
+        oo = attempt(uf, flat, flat)
+        if oo.ok and (not again.ok or not isinstance(again.value, RA) or not same_array(again.value.ravel(), np.asarray(oo.value)) or np.asarray(again.value.lengths).tolist() != list(lens)):
+            return violated("after the refused combination, %s of the array with an equal-shaped partner %s" % (case["uf"], ("raised %r" % (again,)) if not again.ok else "gives %s, numpy gives %s" % (short(again.value, 160), short(oo.value, 160))),
+                            tags + ["unusable-after-refusal"])
         return held(tags, nontrivial)
     if not o.ok:
         return undefined("numpy raises for the flat computation: %r" % o, tags)
